@@ -288,12 +288,79 @@ fn spawn_body(c: &mut Commands, inst: Inst, flavour: Flavour, sh: &Arc<Shared>) 
     }
 }
 
-fn register_once(c: &mut Commands, b: DynBundle, inst: Inst, flavour: Flavour, sh: &Arc<Shared>) -> RevokeToken {
-    match flavour {
-        Flavour::Ord => c.react().once(b, make_body_ord(inst, sh.clone())),
-        Flavour::Excl => c.react().once(b, make_body_excl(inst, sh.clone())),
-        Flavour::DropErr => c.react().once(b, make_body_drop_err(inst, sh.clone())),
-        Flavour::WarnErr => c.react().once(b, make_body_warn_err(inst, sh.clone())),
+/// Registration of a reactor, generic over the concrete bundle type (see `types::with_bundle`).
+/// api 0: `spawn_system_command` + `ReactCommands::with`; api 1: `on` / `on_persistent` / `on_revokable`.
+struct RegFn<'a, 'w, 's> {
+    c: &'a mut Commands<'w, 's>,
+    inst: Inst,
+    flavour: Flavour,
+    sh: &'a Arc<Shared>,
+    mode: Mode,
+    once: bool,
+    api: u8,
+}
+
+impl<'a, 'w, 's> BundleFn for RegFn<'a, 'w, 's> {
+    /// (system command if known at call time, token)
+    type Out = (Option<SystemCommand>, Option<RevokeToken>);
+    fn call<B: ReactionTriggerBundle>(self, b: B) -> Self::Out {
+        let RegFn { c, inst, flavour, sh, mode, once, api } = self;
+        if once {
+            let tok = match flavour {
+                Flavour::Ord => c.react().once(b, make_body_ord(inst, sh.clone())),
+                Flavour::Excl => c.react().once(b, make_body_excl(inst, sh.clone())),
+                Flavour::DropErr => c.react().once(b, make_body_drop_err(inst, sh.clone())),
+                Flavour::WarnErr => c.react().once(b, make_body_warn_err(inst, sh.clone())),
+            };
+            return (Some(SystemCommand::from(tok.clone())), Some(tok));
+        }
+        if api == 0 {
+            let sc = spawn_body(c, inst, flavour, sh);
+            let tok = c.react().with(b, sc, rmode(mode));
+            return (Some(sc), tok);
+        }
+        match mode {
+            Mode::Persistent => {
+                let sc = match flavour {
+                    Flavour::Ord => c.react().on_persistent(b, make_body_ord(inst, sh.clone())),
+                    Flavour::Excl => c.react().on_persistent(b, make_body_excl(inst, sh.clone())),
+                    Flavour::DropErr => c.react().on_persistent(b, make_body_drop_err(inst, sh.clone())),
+                    Flavour::WarnErr => c.react().on_persistent(b, make_body_warn_err(inst, sh.clone())),
+                };
+                (Some(sc), None)
+            }
+            Mode::Revokable => {
+                let tok = match flavour {
+                    Flavour::Ord => c.react().on_revokable(b, make_body_ord(inst, sh.clone())),
+                    Flavour::Excl => c.react().on_revokable(b, make_body_excl(inst, sh.clone())),
+                    Flavour::DropErr => c.react().on_revokable(b, make_body_drop_err(inst, sh.clone())),
+                    Flavour::WarnErr => c.react().on_revokable(b, make_body_warn_err(inst, sh.clone())),
+                };
+                (Some(SystemCommand::from(tok.clone())), Some(tok))
+            }
+            Mode::Cleanup => {
+                // `on` returns nothing: the system entity is discovered when the registration is published
+                match flavour {
+                    Flavour::Ord => c.react().on(b, make_body_ord(inst, sh.clone())),
+                    Flavour::Excl => c.react().on(b, make_body_excl(inst, sh.clone())),
+                    Flavour::DropErr => c.react().on(b, make_body_drop_err(inst, sh.clone())),
+                    Flavour::WarnErr => c.react().on(b, make_body_warn_err(inst, sh.clone())),
+                }
+                (None, None)
+            }
+        }
+    }
+}
+
+/// `ReactCommands::with` on an existing system command, generic over the bundle type.
+struct WithFn<'a, 'w, 's> {
+    c: &'a mut Commands<'w, 's>,
+    sc: SystemCommand,
+}
+impl<'a, 'w, 's> BundleFn for WithFn<'a, 'w, 's> {
+    type Out = ();
+    fn call<B: ReactionTriggerBundle>(self, b: B) {
+        self.c.react().with(b, self.sc, ReactorMode::Persistent);
     }
 }
 
@@ -486,6 +553,25 @@ pub fn exec_act(sh: &Arc<Shared>, run: RunId, seq: u32, a: &Act, c: &mut Command
             }
             q_post(c, sh, cmd);
         }
+        Act::RunEnt(r) => {
+            let e = lk(&sh.st).ent(r);
+            issued(sh, run, seq, cmd, RAct::RunEnt { ent: ebits(e) });
+            q_pre(c, sh, cmd);
+            c.queue(SystemCommand(e));
+            q_post(c, sh, cmd);
+        }
+        Act::SendSeEnt(r, ty) => {
+            let e = lk(&sh.st).ent(r);
+            let pay = new_pay(sh);
+            issued(sh, run, seq, cmd, RAct::SendSeEnt { ent: ebits(e), ty, pay });
+            q_pre(c, sh, cmd);
+            if ty == 0 {
+                c.send_system_event(SystemCommand(e), Se::<0> { id: pay, sh: sh.clone() });
+            } else {
+                c.send_system_event(SystemCommand(e), Se::<1> { id: pay, sh: sh.clone() });
+            }
+            q_post(c, sh, cmd);
+        }
         Act::Broadcast(ty) => {
             let pay = new_pay(sh);
             issued(sh, run, seq, cmd, RAct::Broadcast { ty, pay });
@@ -593,7 +679,7 @@ pub fn exec_act(sh: &Arc<Shared>, run: RunId, seq: u32, a: &Act, c: &mut Command
             }
             q_post(c, sh, cmd);
         }
-        Act::Register { mode, once, bundle, flavour, script } => {
+        Act::Register { mode, once, bundle, flavour, script, form } => {
             let (inst, items) = {
                 let st = lk(&sh.st);
                 if st.systems.len() >= MAX_INST {
@@ -604,42 +690,34 @@ pub fn exec_act(sh: &Arc<Shared>, run: RunId, seq: u32, a: &Act, c: &mut Command
                 (st.systems.len(), st.items(&bundle))
             };
             let b = DynBundle::new(&items);
+            let shape = form % N_SHAPES;
+            let api = (form / N_SHAPES) % 2;
             q_pre(c, sh, cmd);
-            let (sc, tok) = if once {
-                let tok = register_once(c, b, inst, flavour, sh);
-                (SystemCommand::from(tok.clone()), Some(tok))
-            } else {
-                let sc = spawn_body(c, inst, flavour, sh);
-                let tok = c.react().with(b, sc, rmode(mode));
-                (sc, tok)
-            };
+            let (sc, tok) = with_bundle(&items, shape, RegFn { c: &mut *c, inst, flavour, sh, mode, once, api });
+            let kind = if once { SysKindTag::Once } else { SysKindTag::Reactor };
             let script_idx = {
                 let mut st = lk(&sh.st);
                 let script_idx = (script as usize) % st.prog.scripts.len().max(1);
                 st.systems.push(SysInfo {
-                    cmd: sc,
-                    kind: if once { SysKindTag::Once } else { SysKindTag::Reactor },
+                    cmd: sc.unwrap_or(SystemCommand(Entity::PLACEHOLDER)),
+                    kind,
                     flavour,
                     script: script_idx,
                     mode: Some(mode),
                 });
                 script_idx
             };
-            sh.push(Ev::SysCreated {
-                inst,
-                ent: ebits(*sc),
-                kind: if once { SysKindTag::Once } else { SysKindTag::Reactor },
-                flavour,
-                script: script_idx,
-            });
+            if let Some(sc) = sc {
+                sh.push(Ev::SysCreated { inst, ent: ebits(*sc), kind, flavour, script: script_idx });
+            }
             issued(
                 sh,
                 run,
                 seq,
                 cmd,
-                RAct::Register { inst, mode, once, flavour, script: script_idx, bundle: b.resolved() },
+                RAct::Register { inst, mode, once, flavour, script: script_idx, bundle: b.resolved(), form },
             );
-            q_publish(c, sh, cmd, inst, tok, Some(b));
+            q_publish(c, sh, cmd, inst, tok, Some(b), sc.is_none());
             q_post(c, sh, cmd);
         }
         Act::SpawnSys { flavour, script } => {
@@ -662,7 +740,7 @@ pub fn exec_act(sh: &Arc<Shared>, run: RunId, seq: u32, a: &Act, c: &mut Command
             };
             sh.push(Ev::SysCreated { inst, ent: ebits(*sc), kind: SysKindTag::Plain, flavour, script: script_idx });
             issued(sh, run, seq, cmd, RAct::SpawnSys { inst, flavour, script: script_idx });
-            q_publish(c, sh, cmd, inst, None, None);
+            q_publish(c, sh, cmd, inst, None, None, false);
             q_post(c, sh, cmd);
         }
         Act::With { sys, bundle } => {
@@ -680,7 +758,9 @@ pub fn exec_act(sh: &Arc<Shared>, run: RunId, seq: u32, a: &Act, c: &mut Command
             let b = DynBundle::new(&items);
             issued(sh, run, seq, cmd, RAct::With { inst, bundle: b.resolved() });
             q_pre(c, sh, cmd);
-            c.react().with(b, sc, ReactorMode::Persistent);
+            // bundle shape: derived from the bundle itself so that replay files stay valid
+            let shape = (items.len() as u8 + sys) % N_SHAPES;
+            with_bundle(&items, shape, WithFn { c: &mut *c, sc });
             q_post(c, sh, cmd);
         }
         Act::Revoke(x) => {
@@ -891,9 +971,26 @@ fn q_publish(
     inst: Inst,
     tok: Option<RevokeToken>,
     bundle: Option<DynBundle>,
+    discover: bool,
 ) {
     let sh = sh.clone();
     c.queue(move |w: &mut World| {
+        if discover {
+            // `ReactCommands::on` does not tell which entity it spawned: it is the only system-command entity the
+            // harness does not know yet (every creation is followed immediately by its own publish command).
+            let known: Vec<Entity> = lk(&sh.st).systems.iter().map(|s| *s.cmd).collect();
+            let unknown: Vec<Entity> = hooks::system_command_entities(w).into_iter().filter(|e| !known.contains(e)).collect();
+            let (kind, flavour, script) = {
+                let st = lk(&sh.st);
+                (st.systems[inst].kind, st.systems[inst].flavour, st.systems[inst].script)
+            };
+            if unknown.len() == 1 {
+                lk(&sh.st).systems[inst].cmd = SystemCommand(unknown[0]);
+                sh.push(Ev::SysCreated { inst, ent: ebits(unknown[0]), kind, flavour, script });
+            } else {
+                panic!("ReactCommands::on left {} unknown system-command entities (expected exactly 1) for instance {inst}", unknown.len());
+            }
+        }
         let note = {
             let mut st = lk(&sh.st);
             st.published.push(inst);
@@ -1315,6 +1412,29 @@ fn direct_act(w: &mut World, sh: &Arc<Shared>, run: RunId, seq: u32, a: &Act, en
                 (Entry::WorldApi, _) => w.send_system_event(sc, Se::<1> { id: pay, sh: sh.clone() }),
                 (_, 0) => w.react(|rc| rc.commands().send_system_event(sc, Se::<0> { id: pay, sh: sh.clone() })),
                 (_, _) => w.react(|rc| rc.commands().send_system_event(sc, Se::<1> { id: pay, sh: sh.clone() })),
+            }
+            direct_post(w, sh, cmd);
+            true
+        }
+        (Act::RunEnt(r), Entry::WorldApi) => {
+            let e = lk(&sh.st).ent(r);
+            let cmd = new_cmd(sh);
+            issued(sh, run, seq, cmd, RAct::RunEnt { ent: ebits(e) });
+            direct_pre(w, sh, cmd);
+            SystemCommand(e).apply(w);
+            direct_post(w, sh, cmd);
+            true
+        }
+        (Act::SendSeEnt(r, ty), Entry::WorldApi) => {
+            let e = lk(&sh.st).ent(r);
+            let cmd = new_cmd(sh);
+            let pay = new_pay(sh);
+            issued(sh, run, seq, cmd, RAct::SendSeEnt { ent: ebits(e), ty, pay });
+            direct_pre(w, sh, cmd);
+            if ty == 0 {
+                w.send_system_event(SystemCommand(e), Se::<0> { id: pay, sh: sh.clone() });
+            } else {
+                w.send_system_event(SystemCommand(e), Se::<1> { id: pay, sh: sh.clone() });
             }
             direct_post(w, sh, cmd);
             true
